@@ -47,6 +47,7 @@ def run(ctx):
     ctx.n = 2 * len(allstrs) + len(named)
     ctx.distinct = set(allstrs)
     ac.judge(ctx, progs + named, "c09")
+    ac.judge(ctx, progs[::2] + named, "c09chk", profile="checked")
     return vlib.finish(ctx, rule="paths: all segment counts 1..255 rooted and unrooted, every character position over the full "
                        "alphabet [A-Z_][A-Z0-9_], seeded random combinations; malformed: empty, lone backslash, and one segment of "
                        "length 0..3 or 5..8 at every position of 1..5-segment paths; through Path::new and From<&str>, and as the name "
